@@ -397,6 +397,13 @@ def r6_file_provider(chk, F):
             idx.append(k[1].get("v") if k[0] == "const" else None)
     chk.ob(rule, "LeapSecondsFile::from_path", "columns-0-and-1", sorted(x for x in idx if x is not None) == [0, 1] and len(idx) == 2, "constant indices",
            detail=idx)
+    # the columns of a row: the IERS file aligns them with runs of blanks and tabs, so the row tokenizer must collapse runs of
+    # white space.  Accepted idioms (type-resolved: the iterator type that is collected into the column vector):
+    # str::split_whitespace / str::split_ascii_whitespace
+    coll = [cfg.callee_name(t["f"]) for bi, t in cfg.calls(fp) if cfg.callee_name(t["f"]).split("::<")[0].endswith("::collect") or "::collect::<" in cfg.callee_name(t["f"])]
+    okc = len(coll) >= 1 and all(("SplitWhitespace" in c_ or "SplitAsciiWhitespace" in c_) for c_ in coll if "&str" in c_)
+    chk.ob(rule, "LeapSecondsFile::from_path", "row-tokenizer-collapses-white-space-runs", okc and any("&str" in c_ for c_ in coll),
+           "resolved iterator type collected into the columns (accepted idioms: split_whitespace, split_ascii_whitespace)", detail=None if okc else coll)
     hashcmp = False
     for bi, si, s in cfg.stmts(fp):
         if s["k"] == "a" and s["r"]["op"] == "bin" and s["r"]["b"] == "Eq":
